@@ -62,7 +62,7 @@ def run(ctx):
     ctx.cov["runs"] = traces
     ctx.assumptions += ["TinyLFU frequency sketch / doorkeeper and the key hash are an oracle in the model (any answer); that the oracle "
                         "returns (no slice index of sketch.go / filter.go out of range, for every hash) is Props/C15b over the index arithmetic "
-                        "translated from the source on every run; nextPowerOfTwo enters as a bounded size; "
+                        "translated from the source on every run; nextPowerOfTwo translated as a let-chain and bounded for all 2^32 arguments; "
                         "Go runtime, container/list, sync are trusted", "asynchronous callbacks compared cumulatively (at most one in flight)"]
     ctx.trusted += ["go/cmd/hxcache + Driver/Cache.lean (differential correspondence over the public builder API)",
                     "go/cmd/extract (protectedRatio, admissionRatio regenerated from lru.go/tlfu.go; sketch.go: translator of uint32 index expressions to BitVec 32 terms, index sites and Init statements of pkg/cache/internal)"]
